@@ -47,7 +47,7 @@ func (e *Engine) doCall(st *State, fr *Frame, res ssa.Value, c *ssa.CallCommon, 
 		dyn := typeByID[id]
 		if _, isPtr := dyn.Underlying().(*types.Pointer); isPtr && e.inModuleIface(c.Value.Type()) {
 			e.AssumedDep["no typed-nil pointer inside a module interface value"]++
-			st.assume(Ne(recv[1], IntC(0)))
+			e.fact(st, Ne(recv[1], IntC(0)))
 		}
 		ms := e.W.Prog.MethodSets.MethodSet(dyn)
 		sel := ms.Lookup(c.Method.Pkg(), c.Method.Name())
@@ -179,6 +179,11 @@ func (e *Engine) callFunction(st *State, fr *Frame, res ssa.Value, callee *ssa.F
 			return false
 		}
 	}
+	if (callee.Name() == "String" || callee.Name() == "Error") && callee.Signature.Params().Len() == 0 && callee.Signature.Results().Len() == 1 && callee.Signature.Recv() != nil {
+		// textual renderings are never executed: a deterministic uninterpreted string
+		e.bind(fr, res, e.ufResults(st, "text$"+shortFn(callee), callee.Signature, args[:1]))
+		return false
+	}
 	if callee.Pkg != nil && e.isUninterp(callee) {
 		e.bind(fr, res, e.ufResults(st, "spec$"+shortFn(callee), callee.Signature, args[:len(callee.Params)]))
 		return false
@@ -289,7 +294,7 @@ func (e *Engine) ufResults(st *State, name string, sig *types.Signature, args []
 			v[j] = App(fmt.Sprintf("%s$%d.%d", name, i, j), lf.Sort, flat...)
 			for _, a := range leafAssume(v[j], lf) {
 				if !v[j].hasBV {
-					st.assume(a)
+					e.fact(st, a)
 				}
 			}
 		}
@@ -310,7 +315,7 @@ func (e *Engine) havocCall(st *State, fr *Frame, res ssa.Value, name string, sig
 		for i := 0; i < sig.Results().Len(); i++ {
 			v, as := freshVal("ret$"+name, sig.Results().At(i).Type())
 			for _, a := range as {
-				st.assume(a)
+				e.fact(st, a)
 			}
 			results = append(results, v)
 		}
@@ -360,7 +365,7 @@ func (e *Engine) builtin(st *State, fr *Frame, b *ssa.Builtin, c *ssa.CallCommon
 		switch t := c.Args[0].Type().Underlying().(type) {
 		case *types.Slice:
 			r := Fresh("cap", SInt)
-			st.assume(Le(args[0][2], r))
+			e.fact(st, Le(args[0][2], r))
 			return Val{r}
 		case *types.Array:
 			return Val{IntC(t.Len())}
@@ -400,9 +405,9 @@ func (e *Engine) builtin(st *State, fr *Frame, b *ssa.Builtin, c *ssa.CallCommon
 				// described by a quantified fact over a fresh row
 				nr := Fresh("approw", ArrSort(lf.Sort))
 				bv := BVar("j", SInt)
-				st.assume(Forall([]*Term{bv}, Implies(Lt(bv, Add(s[1], s[2])), Eq(Select(nr, bv), Select(row, bv)))))
+				e.fact(st, Forall([]*Term{bv}, Implies(Lt(bv, Add(s[1], s[2])), Eq(Select(nr, bv), Select(row, bv)))))
 				if len(extra) == 3 {
-					st.assume(Forall([]*Term{bv}, Implies(And(Le(IntC(0), bv), Lt(bv, n)),
+					e.fact(st, Forall([]*Term{bv}, Implies(And(Le(IntC(0), bv), Lt(bv, n)),
 						Eq(Select(nr, Add(Add(s[1], s[2]), bv)), Select(Select(arr, extra[0]), Add(extra[1], bv))))))
 				}
 				row = nr
@@ -433,7 +438,7 @@ func (e *Engine) builtin(st *State, fr *Frame, b *ssa.Builtin, c *ssa.CallCommon
 			} else {
 				srcAt = Select(Select(arr, src[0]), Add(src[1], bv))
 			}
-			st.assume(Forall([]*Term{bv}, Ite(And(Le(IntC(0), bv), Lt(bv, n)),
+			e.fact(st, Forall([]*Term{bv}, Ite(And(Le(IntC(0), bv), Lt(bv, n)),
 				Eq(Select(nr, Add(dst[1], bv)), srcAt),
 				Eq(Select(nr, Add(dst[1], bv)), Select(row, Add(dst[1], bv))))))
 			st.heap.arr[name] = Store(arr, dst[0], nr)
